@@ -107,6 +107,10 @@ def edge_docs():
     docs.append("Feature: f\n  Scenario: s\n    Given d\n      \"\"\"\n" + "".join(f"      line {i}\n" for i in range(1100)) + "      \"\"\"\n")
     docs.append("Feature: f\n" + "".join(f"  Rule: r{i}\n    Example: e\n      Given x\n" for i in range(70)))
     docs.append("".join(f"junk {i}\n" for i in range(30)))
+    for k in (8, 9, 10, 11):      # exactly k errors, then ONE line that yields two (tag error + unexpected line)
+        docs.append("".join(f"junk {i}\n" for i in range(k)) + "@a b\nFeature: f\n")
+        docs.append("Feature: f\n  Scenario: s\n    Given x\n" + "".join(f"      junk {i}\n" for i in range(k)) + "    @t with blank\n    Scenario: t\n")
+        docs.append("Feature: f\n  Scenario: s\n    Given x\n" + "".join(f"      junk {i}\n" for i in range(k)) + "      | a |\n      | a | b |\n    @t with blank\n  junk\n")
     docs.append("Feature: f\n  Scenario: s\n    Given a\n" + "".join(f"      | a |\n      | b | c |\n    And s{i}\n" for i in range(14)) + "foo\n")
     for name in ("ſv", "Kn", "fı", "İt", "zh_CN", "en_au", "sr_Cyrl", "en_Scouse", "mk_Latn", "pt_BR", "fr2", "é"):
         docs.append(f"# language: {name}\nFeature: f\n  Scenario: s\n    Given a\n")
